@@ -54,7 +54,7 @@ def check_differential(run, case, fronts):
     for f in fronts[1:]:
         run.count('pairwise_comparisons')
         a, b = results[ref], results[f]
-        special = (regs_by_front[ref] ^ regs_by_front[f]) & {'twisted-udp-dead', 'twisted-listen-only-is-permanent'}
+        special = (regs_by_front[ref] ^ regs_by_front[f]) & {'twisted-listen-only-is-permanent'}
         lossy = (regs_by_front[ref] | regs_by_front[f]) & set(SH.LOSSY)
         if a['out'] != b['out'] or a['dump'] != b['dump']:
             what = 'output' if a['out'] != b['out'] else 'final store'
@@ -98,8 +98,6 @@ def check_differential(run, case, fronts):
                          'binary-pipelined-frame-skipped': 'binary framer skips frames; front-ends differ in later flushes',
                          'binary-delimiter-in-body': 'a binary frame with delimiter bytes raises in the receive path: stream handlers close, the serial handler resets',
                          'foreign-unit-frame-discards-rest-of-read': 'rest of the read discarded',
-                         'tls-framer-keyerror-in-multi-unit-mode': 'TLS KeyError',
-                         'twisted-udp-dead': 'Twisted UDP protocol never answers',
                          'twisted-listen-only-is-permanent': 'only the Twisted front-end honours (and never leaves) listen-only mode'}[slug], case)
     return not kinds
 
@@ -228,7 +226,8 @@ def run(run):
         case['flags']['broadcast_enable'] = bool(i % 4 == 0)
         if i % 2:
             SH.add_delivery(r, case)               # several senders; asyncio: datagrams queued before the handler task runs
-        ok = check_differential(run, case, DGRAM_FRONTS)
+        # Twisted offers no broadcast option: with broadcast on only the two front-ends that have it are compared
+        ok = check_differential(run, case, DGRAM_FRONTS if not case['flags']['broadcast_enable'] else DGRAM_FRONTS[:2])
         run.case(h64(('dgram', repr(case))), True,
                  sample={'kind': 'differential', 'framing': 'tcp', 'fronts': DGRAM_FRONTS, 'reads': [[(u, m['fc']) for u, t, m in rd] for rd in case['reads']][:5],
                          'verdict': 'identical' if ok else 'differs (known)'},
